@@ -44,6 +44,31 @@ pub struct Wide {
     pub raw: Vec<u8>,
     pub plain: Vec<u8>,
     pub usize_: usize,
+    pub hr: Hr,
+}
+
+/// a type whose serde form depends on `is_human_readable()` (like Uuid, IpAddr, time types): a
+/// number in compact formats such as the bridge's bincode, a string in readable ones
+#[derive(Debug, Clone, PartialEq, Default)]
+pub struct Hr(pub u32);
+impl Serialize for Hr {
+    fn serialize<S: serde::Serializer>(&self, s: S) -> Result<S::Ok, S::Error> {
+        if s.is_human_readable() {
+            s.serialize_str(&format!("hr-{}", self.0))
+        } else {
+            s.serialize_u32(self.0)
+        }
+    }
+}
+impl<'de> Deserialize<'de> for Hr {
+    fn deserialize<D: serde::Deserializer<'de>>(d: D) -> Result<Self, D::Error> {
+        if d.is_human_readable() {
+            let s = String::deserialize(d)?;
+            s.strip_prefix("hr-").and_then(|n| n.parse().ok()).map(Hr).ok_or_else(|| serde::de::Error::custom("not an Hr"))
+        } else {
+            u32::deserialize(d).map(Hr)
+        }
+    }
 }
 
 /// `serde_bytes` is not a dependency of the harness; this is the same two-line adapter
